@@ -335,11 +335,9 @@ let run_mode () = run_driver (fun toks impl ->
                   | Ok it -> "ok-tree " ^ hex_of_bytes (encode_item it) ^ (match gh with Some g -> " " ^ g | None -> "")
                   | _ -> "unparseable")) in
           let verdict =
-            (match int_of_n (match gh with Some g -> judge_class_tx r bs (bytes_of_hex g)
-                                      | None -> if starts_with "json_" label then judge_class_json r bs else judge_class r bs) with
+            (match int_of_n (match gh with Some g -> judge_class_tx r bs (bytes_of_hex g) | None -> judge_class r bs) with
              | 0 -> "holds"
              | 3 -> "fails:C03-builder-echoes-degenerate-given-values"
-             | 6 -> "fails:C03-json-reader-skips-text-bounds"   (* JSON provenance only: nothing but an over-long url / dns name *)
              | c -> if starts_with "nv_" label then "na"      (* non-validating constructor: outside the quantifier *)
                else if c = 1 then "fails:C03-mint-quantity-outside-int64" else "fails:-") in
           (m, verdict)
